@@ -16,8 +16,8 @@ PID = "C09"
 UNIT = "lex"
 
 PINNED = [
-    # "lex_tiles", "lex_boundaries", "lex_lines", "lex_col_reset", "lex_indent",
-    "symbols_no_linebreak", "keywords_no_linebreak",
+    "lex_tiles", "lex_boundaries", "lex_lines", "lex_col_reset", "lex_indent", "lex_total",
+    "symbols_no_linebreak", "keywords_no_linebreak", "whitespace_no_linebreak",
 ]
 
 # alphabet chosen to hit each lexer mode
